@@ -4,6 +4,9 @@ import (
 	"fmt"
 	"hash/fnv"
 	"sort"
+	"strings"
+	"testing"
+	"testing/synctest"
 	"time"
 )
 
@@ -45,6 +48,8 @@ type K struct {
 	// NoMinimise: the violation left runaway work behind (a hang); the worker
 	// reports it without re-executing the run and stops.
 	NoMinimise bool
+
+	t *testing.T // for InBubble
 }
 
 func newK(prop, tier string, tape *Tape, ix uint64) *K {
@@ -112,8 +117,8 @@ func (k *K) Mix(s string) {
 	k.fp = h.Sum64()
 }
 
-func (k *K) Fault(kind string) { k.Faults[kind]++; k.Nontriv = true }
-func (k *K) Probe(name string) { k.Probes[name]++ }
+func (k *K) Fault(kind string)   { k.Faults[kind]++; k.Nontriv = true }
+func (k *K) Probe(name string)   { k.Probes[name]++ }
 func (k *K) Fingerprint() uint64 { return k.fp }
 
 // Violate reports an oracle failure. If it belongs to the property being
@@ -151,4 +156,33 @@ func sortedKeys(m map[string]int) []string {
 	}
 	sort.Strings(ks)
 	return ks
+}
+
+// InBubble runs f inside its own synctest bubble (virtual clock, quiescence) for a world whose runs
+// are otherwise not bubbled. A Violate/Stop inside f unwinds the run as usual; goroutines f leaves
+// behind blocked when it returns are abandoned with the bubble.
+func (k *K) InBubble(f func()) {
+	var pv any
+	start := time.Now()
+	func() {
+		defer func() {
+			if r := recover(); r != nil {
+				if strings.Contains(fmt.Sprint(r), deadlockText) {
+					return
+				}
+				panic(r)
+			}
+		}()
+		synctest.Test(k.t, func(t *testing.T) {
+			defer func() {
+				pv = recover()
+				k.SimTime += time.Since(start)
+			}()
+			start = time.Now()
+			f()
+		})
+	}()
+	if pv != nil {
+		panic(pv)
+	}
 }
